@@ -504,33 +504,43 @@ theorem send_join_accept_iff {P} (O : Oracles P) (hidem : AddIdem O) (prov : Opt
         · simp [sjAccepted, h2]
         · simp [sjAccepted, h2]
 
-/-! ## Termination of the retry loop: a finding under the provider contract
+/-! ## Termination of the retry loop (fixed finding 778c3d3)
 
-  `retryAE` (the `goto retryEvent` loop) terminates within two rounds when the provider answers with the
-  requested event or nothing (`retryAE_eq_stepC`).  When it answers a request for `ae` with a NON-EMPTY list of
-  OTHER events — every time — the Go loop never exits: for every amount of fuel the model runs out of it. -/
+  Before the fix, a provider answering a request for `ae` with a NON-EMPTY list of OTHER events made the
+  `goto retryEvent` loop spin forever (nothing was recorded for `ae`).  The code now records the requested
+  ID as missing in that case; the loop jumps back at most once whatever the provider answers. -/
 
-theorem addProvided_lookup_other {P} (O : Oracles P) (es : List Event) (m : IdMap) (acc : P) (ae : Bytes)
-    (h : ∀ e ∈ es, e.eventID ≠ ae) (hm : m.lookup ae = none) : (addProvided O es m acc).1.lookup ae = none := by
-  induction es generalizing m acc with
-  | nil => exact hm
-  | cons e es ih =>
-    unfold addProvided
-    have hne : ae ≠ e.eventID := fun h' => h e List.mem_cons_self h'.symm
-    split
-    · exact ih _ _ (fun x hx => h x (List.mem_cons_of_mem _ hx)) (by rw [lookup_cons_ne _ _ hne]; exact hm)
-    · exact ih _ _ (fun x hx => h x (List.mem_cons_of_mem _ hx)) (by rw [lookup_cons_ne _ _ hne]; exact hm)
+/-- `retry_terminates`: for EVERY provider (no contract needed) and every fuel ≥ 2 the retry loop of
+    checkAllowedByAuthEvents finishes. -/
+theorem retry_terminates {P} (O : Oracles P) (prov : Option EventProvider) (ae : Bytes) (n : Nat) (m : IdMap) (acc : P) (log : Log) :
+    ∀ m' log', retryAE O prov ae (n + 2) m acc log ≠ .outOfFuel m' log' :=
+  retryAE_terminates O prov ae n m acc log
 
-theorem retry_diverges {P} (O : Oracles P) (p : EventProvider) (ae : Bytes) (e : Event) (es : List Event)
-    (hans : p [ae] = .events (e :: es)) (hother : ∀ x ∈ e :: es, x.eventID ≠ ae) (fuel : Nat) (m : IdMap) (acc : P) (log : Log)
-    (hm : m.lookup ae = none) :
-    ∃ m' log', retryAE O (some p) ae fuel m acc log = .outOfFuel m' log' := by
-  induction fuel generalizing m acc log with
-  | zero => exact ⟨m, log, rfl⟩
-  | succ k ih =>
-    unfold retryAE
-    simp only [hm, hans]
-    exact ih _ _ _ (addProvided_lookup_other O (e :: es) m acc ae hother hm)
+theorem loopAE_terminates {P} (O : Oracles P) (prov : Option EventProvider) (n : Nat) (ids : List Bytes) (m : IdMap) (acc : P) (log : Log) :
+    ∀ m' log', loopAE O prov (n + 2) ids m acc log ≠ .outOfFuel m' log' := by
+  induction ids generalizing m acc log with
+  | nil => intro m' log' h; cases h
+  | cons ae rest ih =>
+    intro m' log'
+    unfold loopAE
+    cases hr : retryAE O prov ae (n + 2) m acc log with
+    | next m1 acc1 log1 => exact ih m1 acc1 log1 m' log'
+    | fail m1 log1 => intro h; cases h
+    | outOfFuel m1 log1 => exact absurd hr (retry_terminates O prov ae n m acc log m1 log1)
+
+/-- checkAllowedByAuthEvents terminates for every provider -/
+theorem checkAllowed_terminates {P} (O : Oracles P) (prov : Option EventProvider) (n : Nat) (e : Event) (m : IdMap) (log : Log) :
+    (checkAllowed O prov (n + 2) e m log).1 ≠ .outOfFuel := by
+  unfold checkAllowed
+  cases hl : loopAE O prov (n + 2) e.authEventIDs m O.empty log with
+  | next m' acc log' => simp only; split <;> (intro h; cases h)
+  | fail m' log' => intro h; cases h
+  | outOfFuel m' log' => exact absurd hl (loopAE_terminates O prov n e.authEventIDs m O.empty log m' log')
+
+/-- the old behaviour, for the record: without the fix (`ensureKey` = identity) the map still lacks `ae`
+    after the provider's other events were added -/
+example : ([] : IdMap).lookup b!"$x" = none ∧ (ensureKey b!"$x" []).lookup b!"$x" = some none := by
+  constructor <;> rfl
 
 /-! ## The oracles the driver runs satisfy `AddIdem` (non-vacuity of the hypotheses) -/
 
